@@ -443,3 +443,73 @@ Proof.
   induction ents as [|x t IH]; intros H; [reflexivity|]. cbn. rewrite (H x (or_introl eq_refl)). cbn. apply IH.
   intros ent Hin. apply H. right; exact Hin.
 Qed.
+
+(* ------------------------------------------------------------------------------------------- *)
+(* Patching from the right = building the output left to right, keeping the text between the patches. *)
+Lemma wf_bound off text ps : wf_patches off text ps -> 0 <= off <= Z.of_nat (length text).
+Proof.
+  revert off. induction ps as [|p t IH]; cbn; intros off H; [exact H|].
+  destruct H as [H1 [H2 H3]]. specialize (IH _ H3). lia.
+Qed.
+
+Lemma firstn_app_le {A} n (l m : list A) : (n <= length l)%nat -> firstn n (l ++ m) = firstn n l.
+Proof. intros H. rewrite firstn_app. replace (n - length l)%nat with 0%nat by lia. cbn. apply app_nil_r. Qed.
+
+Lemma skipn_app_exact {A} n (l m : list A) : length l = n -> skipn n (l ++ m) = m.
+Proof. intros H. subst. rewrite skipn_app, skipn_all, Nat.sub_diag. reflexivity. Qed.
+
+Lemma firstn_split {A} a b (l : list A) : firstn (a + b) l = firstn a l ++ firstn b (skipn a l).
+Proof.
+  revert l; induction a as [|a IH]; intros l; [reflexivity|]. destruct l as [|x l]; cbn.
+  - rewrite firstn_nil. reflexivity.
+  - rewrite IH. reflexivity.
+Qed.
+
+Lemma fold_right_spec text : forall ps off, wf_patches off text ps ->
+  fold_right (fun p acc => apply_patch acc p) text ps = firstn (Z.to_nat off) text ++ spec_apply off text ps.
+Proof.
+  induction ps as [|p t IH]; intros off H.
+  - cbn. symmetry. apply firstn_skipn.
+  - cbn [fold_right spec_apply]. cbn in H. destruct H as [H1 [H2 H3]]. rewrite (IH _ H3).
+    pose proof (wf_bound _ _ _ H3) as Hb. unfold apply_patch.
+    assert (Hlen : length (firstn (Z.to_nat (p_end p)) text) = Z.to_nat (p_end p)) by (apply firstn_length_le; lia).
+    rewrite firstn_app_le by lia. rewrite (skipn_app_exact _ _ _ Hlen).
+    rewrite firstn_firstn. replace (Init.Nat.min (Z.to_nat (p_start p)) (Z.to_nat (p_end p))) with (Z.to_nat (p_start p)) by lia.
+    unfold slice. replace (Z.to_nat (p_start p)) with (Z.to_nat off + Z.to_nat (p_start p - off))%nat at 1 by lia.
+    rewrite firstn_split, <- app_assoc. reflexivity.
+Qed.
+
+Fixpoint starts_above (s : Z) (ps : list patch) : Prop :=
+  match ps with [] => True | p :: t => s < p_start p /\ starts_above s t end.
+
+Lemma wf_starts_above off text ps : wf_patches off text ps -> forall s, s < off -> starts_above s ps.
+Proof.
+  revert off. induction ps as [|p t IH]; cbn; intros off H s Hs; [exact I|].
+  destruct H as [H1 [H2 H3]]. split; [lia|]. apply (IH _ H3). lia.
+Qed.
+
+Lemma insert_desc_last p l : (forall q, In q l -> p_start p < p_start q) -> insert_desc p l = l ++ [p].
+Proof.
+  induction l as [|q t IH]; intros H; [reflexivity|]. cbn.
+  destruct (p_start q <=? p_start p) eqn:E.
+  - apply Z.leb_le in E. specialize (H q (or_introl eq_refl)). lia.
+  - rewrite IH; [reflexivity|]. intros q' Hq'. apply H. right; exact Hq'.
+Qed.
+
+Lemma starts_above_In s ps : starts_above s ps -> forall q, In q ps -> s < p_start q.
+Proof. induction ps as [|p t IH]; cbn; intros H q Hq; [destruct Hq|]. destruct H as [H1 H2]. destruct Hq as [<-|Hq]; auto. Qed.
+
+Lemma sort_desc_ascending text : forall ps off, wf_patches off text ps -> sort_desc ps = rev ps.
+Proof.
+  induction ps as [|p t IH]; intros off H; [reflexivity|]. cbn in H. destruct H as [H1 [H2 H3]].
+  unfold sort_desc in *. cbn [fold_right rev]. rewrite (IH _ H3). apply insert_desc_last.
+  intros q Hq. apply in_rev in Hq. apply (starts_above_In _ _ (wf_starts_above _ _ _ H3 (p_start p) H2) q Hq).
+Qed.
+
+Theorem apply_patches_spec text ps : wf_patches 0 text ps -> apply_patches text ps = spec_apply 0 text ps.
+Proof.
+  intros H. unfold apply_patches. rewrite (sort_desc_ascending text ps 0 H).
+  change (fold_left apply_patch (rev ps) text) with (fold_left (fun x y => (fun p acc => apply_patch acc p) y x) (rev ps) text).
+  rewrite <- fold_left_rev_right, rev_involutive.
+  rewrite (fold_right_spec text ps 0 H). reflexivity.
+Qed.
